@@ -15,6 +15,7 @@
 """
 import json, math, random
 from vf import core
+from vf.num import gt, nmax as max, nmin as min
 
 PROPERTY = "C15"
 EPS = 2.0 ** -52
@@ -260,7 +261,7 @@ def run_case(case):
             if boundary in ('periodic', 'shear'):
                 for p in postlive:
                     for k in range(3):
-                        if abs(p[k]) > bx[k] / 2:
+                        if gt(abs(p[k]), bx[k] / 2):
                             add('boundary:particle-outside-box-after-step:%s' % boundary, '%s: particle %d at %r, box %r' % (desc, p[6], p[:3], bx))
                             break
                 if not (resolver == 'merge' and log):
@@ -297,7 +298,7 @@ def run_case(case):
                         tol = 64 * EPS * (abs(u_[k]) + bx[k]) / bx[k] * (abs(kk) + 1)
                         if boundary == 'shear' and k == 1:
                             continue
-                        if abs(qk - kk) > tol:
+                        if gt(abs(qk - kk), tol):
                             add('boundary:coordinate-not-shifted-by-whole-boxes:%s' % boundary, '%s: particle %d axis %d: unwrapped %r, after step %r, box %r (%.6g boxes)' % (desc, p[6], k, u_[k], q[k], bx[k], qk))
                             bad = True
                     if any(ks):
@@ -315,13 +316,13 @@ def run_case(case):
                         if kx:
                             counters['shear_radial_wraps'] += 1
                         wantvy = p[4] + kx * 1.5 * OM * bx[0]
-                        if q[3] != p[3] or q[5] != p[5] or abs(q[4] - wantvy) > 64 * EPS * (abs(p[4]) + abs(kx) * 1.5 * OM * bx[0]) * (abs(kx) + 1):
+                        if q[3] != p[3] or q[5] != p[5] or gt(abs(q[4] - wantvy), 64 * EPS * (abs(p[4]) + abs(kx) * 1.5 * OM * bx[0]) * (abs(kx) + 1)):
                             add('boundary:shear:velocity-offset', '%s: particle %d crossed %d radial boxes: velocity %r -> %r, expected vy %r' % (desc, p[6], kx, p[3:6], q[3:6], wantvy))
                         # y: unwrapped + kx * (1.5 OMEGA Lx t) modulo Ly, t = time at the boundary check = end of step
                         sh = 1.5 * OM * bx[0] * sim.t
                         qy = (u_[1] + kx * sh - q[1]) / bx[1]
                         toly = 256 * EPS * (abs(u_[1]) + abs(kx * sh) + bx[1]) / bx[1] * (abs(kx) + abs(round(qy)) + 1)
-                        if abs(qy - round(qy)) > toly:
+                        if gt(abs(qy - round(qy)), toly):
                             add('boundary:shear:azimuthal-offset', '%s: particle %d crossed %d radial boxes at t=%r: unwrapped y %r, after step %r; (y + k*1.5*OMEGA*Lx*t - y_after)/Ly = %r' % (desc, p[6], kx, sim.t, u_[1], q[1], qy))
             # ---- tree monitor at step end
             if use_tree_col and sim._tree_root and not (log and resolver in ('merge',)):
